@@ -80,9 +80,9 @@ def register(reg):
     reg.specfuncs["hmm_positive"] = lambda ex, st, hmm, a, b, k, t, which: vbool(
         (QF if which.py == "Qlog" else PF)(_i(a), _i(b), to_int(k), _i(t)) + z3.RealVal("1e-300") > 0)
 
-    POS = ("self.log or (all(implies(e2 == e + 1 and m < len(STATES[e]) and l < len(STATES[e2]), "
-           "hmm_positive(self, STATES[e][m], STATES[e2][l], e, track, 'Qlog')) for e in range(0, N) for e2 in range(0, N) "
-           "for m in range(0, N + len(STATES[e])) for l in range(0, N + len(STATES[e2]))) and "
+    POS = ("self.log or (all(implies(e >= 1 and m < len(STATES[e - 1]) and l < len(STATES[e]), "
+           "hmm_positive(self, STATES[e - 1][m], STATES[e][l], e - 1, track, 'Qlog')) for e in range(0, N) "
+           "for m in range(0, N + len(STATES[e - 1])) for l in range(0, N + len(STATES[e]))) and "
            "all(hmm_positive(self, STATES[e][l], OBS[e], e, track, 'Plog') for e in range(0, N) for l in range(0, N + len(STATES[e]))))")
     IN = dict(self="HMM", track="Track", STATES="list[list[any]]", TAB_VAL="list[list[float]]", TAB_MRK="list[list[int]]",
               OBS="list[any]", N="int")
